@@ -40,6 +40,7 @@ CONSTANTS NQ,          \* number of queues
           BufsOf,      \* queue -> set of buffers only this queue touches
           Home,        \* buffer -> GPU whose DRAM / L2 holds it
           Progs,       \* queue -> set of programs (sequences of ops) to choose from
+          CtxOf,       \* queue -> context (process / address space) it belongs to
           Deviations
 
 Queues == 1..NQ
@@ -89,6 +90,7 @@ OpStart(q) ==
   /\ wrote' = [wrote EXCEPT ![q] = FALSE] /\ cap' = [cap EXCEPT ![q] = Nil]
   /\ UNCHANGED <<dram, l2, mark, prog, expect, ok>>
 
+BufsOfProcess(q) == UNION {BufsOf[p] : p \in {p \in Queues : CtxOf[p] = CtxOf[q]}}
 FlushTargets(q) == IF Dev("OwnGPUOnly") THEN {GpuOf[q]} ELSE GPUs
 
 \* a copy whose buffer is marked sends one FlushReq to every GPU when it starts
@@ -113,7 +115,7 @@ FlushAck(q, g) ==
   /\ l2' = [b \in Bufs |-> IF Home[b] = g THEN Nil ELSE l2[b]]
   /\ fl' = [fl EXCEPT ![q] = @ \ {g}]
   /\ mark' = IF Dev("ClearOnAck") /\ IsCopy(Op(q)) /\ fl[q] = {g} /\ sent[q] = FlushTargets(q)
-             THEN [b \in Bufs |-> FALSE] ELSE mark
+             THEN [b \in Bufs |-> mark[b] /\ b \notin BufsOfProcess(q)] ELSE mark
   /\ UNCHANGED <<prog, stage, nf, sent, copied, kr, wrote, cap, expect, ok>>
 
 \* the DMA engine of the buffer's home GPU has moved the data of a copy.  That GPU's command processor handles its
@@ -128,12 +130,14 @@ CopyData(q) ==
        ELSE /\ cap' = [cap EXCEPT ![q] = dram[Op(q).b]] /\ UNCHANGED dram
   /\ UNCHANGED <<l2, mark, prog, stage, nf, sent, fl, kr, wrote, expect, ok>>
 
-\* the launch request leaves the driver: every buffer of the process is marked dirty
-KLaunch(q) ==
+\* the launch request leaves the driver: every buffer of the PROCESS (S) is marked dirty - the L2 is physically
+\* addressed, a kernel of another process cannot dirty this process's buffers
+KLaunchC(q, S) ==
   /\ stage[q] = "run" /\ Op(q).k = "d2d" /\ kr[q] = "no" /\ fl[q] = {}
   /\ kr' = [kr EXCEPT ![q] = "run"]
-  /\ mark' = [b \in Bufs |-> TRUE]
+  /\ mark' = [b \in Bufs |-> mark[b] \/ b \in S]
   /\ UNCHANGED <<dram, l2, prog, stage, nf, sent, fl, copied, wrote, cap, expect, ok>>
+KLaunch(q) == KLaunchC(q, BufsOfProcess(q))
 
 \* silent: the kernel's stores reach the L2 of the destination's home GPU
 KWrite(q) ==
